@@ -395,7 +395,7 @@ fn lowercase_in_place(s: &mut SmallString) {
     }
     let mut state = State::Lower;
     for c in s.chars() {
-        if c.is_uppercase() {
+        if c.to_lowercase().ne([c]) {
             if c.is_ascii() {
                 state = State::MixedAscii;
             } else {
@@ -424,7 +424,7 @@ fn copy_as_lowercase(s: &str) -> SmallString {
     }
     let mut state = State::Lower;
     for c in s.chars() {
-        if c.is_uppercase() {
+        if c.to_lowercase().ne([c]) {
             if c.is_ascii() {
                 state = State::MixedAscii;
             } else {
